@@ -118,7 +118,7 @@ def run(ctx):
                             'iff non-static, and its kwargs (%s)' % msg))
 
     # ---- C03.b inside the recorder: the stored / appended value is built from its args and kwargs parameters
-    ok, why = entry_content(ro, p_args, p_kwargs)
+    ok, why = entry_content(ro, p_args, p_kwargs, roles.record_data.name)
     cb.instance('output recorder: entry value built from its args and kwargs (or prepare_output(key, args, kwargs))', ro.qualname, ok, detail=why)
     if not ok:
         res.add(Finding('C03', 'C03.b', 'R-PROV', ro.file, ro.qualname, ro.node.lineno, 'output entry value', why))
@@ -221,7 +221,7 @@ def run(ctx):
     return res
 
 
-def entry_content(ro, p_args, p_kwargs):
+def entry_content(ro, p_args, p_kwargs, record_name='_record_data'):
     """every value stored / appended by the output recorder derives from both the args and kwargs parameters"""
     fn = ro.node
     # find the local that is stored (argument of Output(...) / of the record call)
@@ -229,7 +229,7 @@ def entry_content(ro, p_args, p_kwargs):
     for n in ast.walk(fn):
         if isinstance(n, ast.Call) and isinstance(n.func, ast.Name) and n.func.id == 'Output' and len(n.args) >= 2 and isinstance(n.args[1], ast.Name):
             vals.add(n.args[1].id)
-        if isinstance(n, ast.Call) and isinstance(n.func, ast.Attribute) and n.func.attr == '_record_data' and len(n.args) >= 2 and isinstance(n.args[1], ast.Name):
+        if isinstance(n, ast.Call) and isinstance(n.func, ast.Attribute) and n.func.attr == record_name and len(n.args) >= 2 and isinstance(n.args[1], ast.Name):
             vals.add(n.args[1].id)
     if len(vals) != 1:
         return False, 'replay capture and recording store do not share one entry value (%s)' % sorted(vals)
